@@ -5,6 +5,7 @@ import numpy as np
 
 from ..core import fingerprint
 from ..gen import c11_tensors as GEN
+from ..gen import c11_buffers as BUF
 from ..oracle import c11_elastic as O
 from .. import cover, monitor
 
@@ -18,6 +19,19 @@ RULE = ('group "tensors": case i picks source = SOURCES[i % 16] (random SPD ente
         'group "histories": one object, 8 operations (first two = all 36 ordered pairs of read / read-then-overwrite-the-returned-'
         'array / modulus / transform / normalise / reassign through a random representation), all five representations '
         're-read in random order after every operation.  '
+        'group "workbuffers": ONE caller-owned axes object per case (9 forms: float64 C / Fortran / window / strided view, float32, int64, '
+        'nested list, list and tuple of row arrays), overwritten in place (5 write styles incl. in-place row negation / permutation / '
+        'transposition) between 5 successive transform() calls; 6 call patterns (same object, two objects in turn, chain of results, '
+        'fresh objects, default-constructed then set, deepcopy/copy/pickle/model copies) x 4 things done between calls (nothing, equal axes '
+        'in another array, other axes in another array, same unchanged object again); every result judged against the oracle rotation for '
+        'the axes held at call time, inverse written into the same object, first call repeated at the end, earlier results re-judged.  '
+        'group "arguments": i -> entry representation (5) x caller-owned container form (9) x construction route (constructor, setter on a '
+        'default / used / deep-copied object); object A built from the container, container overwritten with a second tensor and B built '
+        'from it, container scribbled; A and B and every array read earlier re-judged; both used in turn; results of transform / '
+        'normalized_as / copy / pickle / model given new values and the source re-judged.  '
+        'group "paths": data model written (5 units, own-system normalisation) and read back as DataModelDict / JSON / XML / bytes file / '
+        'old per-constant layout, by the constructor and by model() on a used object; named constants given as int, numpy float64, '
+        '0-d arrays, float32 (placing-only constructors).  '
         'Every case is non-trivial (stiffness is SPD, never a multiple of the identity); distinct = distinct '
         'fingerprint of (stiffness, rotations) resp. (lambda, mu, pair, keywords).')
 ASSUMPTIONS = ['stiffness matrices are symmetric positive definite with condition number <= 1e4',
@@ -27,7 +41,11 @@ ASSUMPTIONS = ['stiffness matrices are symmetric positive definite with conditio
                'square root where the nu>0 and nu<0 solutions meet); elsewhere the bound is the propagated input rounding',
                'Poisson ratio in [0, 0.4999]; rotations are orthogonal to 1e-14',
                'normalized_as: only the six supported systems plus triclinic (monoclinic is refused by the code)',
-               'oracle shares numpy/LAPACK (inv, eigvalsh) with the code under test']
+               'oracle shares numpy/LAPACK (inv, eigvalsh) with the code under test',
+               'float32 / int64 containers only hold exactly representable contents (signed permutations, integer Miller axes, integer-valued '
+               'stiffness); float32 scalars only go to constructors that place their constants without arithmetic',
+               'equal axes in arrays of different memory layout may differ by a few ulp in the result; the same object unchanged must give bitwise the same result',
+               'unit conversion of a data model costs one division and one multiplication (8e-16 relative); the value of a unit is atomman.unitconvert\'s own']
 CONFIG = {'quick': {'shards': 8, 'seeds': 1, 'timeout': 600},
           'thorough': {'shards': 16, 'seeds': 3, 'timeout': 3000}}
 
@@ -702,6 +720,610 @@ def run_history_case(ctx, EC, i):
 
 
 # ==========================================================================
+# call histories with caller-owned argument objects that are re-used (round 4)
+WB_PATTERNS = ('same-object', 'two-objects', 'chain', 'fresh-objects', 'default-then-set', 'copies')
+WB_GAPS = ('none', 'equal-values-other-array', 'other-values-other-array', 'repeat-unchanged')
+WB_KINDS = ('spd', 'cubic', 'hexagonal', 'rhombohedral+C15', 'monoclinic', 'orthorhombic', 'tetragonal+C16')
+WB_STEPS = 5
+
+
+def make_truth(rng, kind, scale):
+    """(Case, keyword constants or None) of an anisotropic stiffness of the given kind."""
+    if kind == 'spd':
+        return Case(GEN.spd_generic(rng, GEN.CONDS[int(rng.integers(0, 3))]) * scale), None
+    group, variants = GEN.SYSTEMS[kind]
+    raw, _ = GEN.system_tensor(rng, kind)
+    kw, c6 = GEN.named_constants(raw * scale, variants[0], group)
+    return Case(c6), kw
+
+
+def build_object(ctx, EC, case, kw, kind, route, k, tag):
+    """A fresh object holding case.c6.  route: 'constructor' | 'default-then-set'; k picks the representation."""
+    rec = ctx.rec
+    obj = None
+    r = GEN.REPRS[k % 5]
+    with ctx.guard(f'building an object ({route})', f'{tag}:build:{route}'):
+        if route == 'constructor':
+            obj = EC(**kw) if (kw is not None and k % 2 == 0) else EC(**{r: container(case.exp[r], bool(k % 3 == 0))})
+        else:
+            obj = EC()
+            rec.check(not np.asarray(obj.Cij).any(), 'ElasticConstants() holds the zero matrix whatever other objects were built before',
+                      f'{tag}:default-instance-zero')
+            rec.count('default-instances')
+            if kw is not None and k % 2 == 0:
+                getattr(obj, GEN.SYSTEM_METHOD[kind])(**kw)
+            else:
+                setattr(obj, r, container(case.exp[r], bool(k % 3 == 0)))
+    extra = 0.0 if (r.startswith('C') or (kw is not None and k % 2 == 0)) else 1e-13 * case.cond
+    return obj, extra
+
+
+def copies_of(ctx, EC, obj, k, tag):
+    """Alternative construction paths that must give an equal, independent object."""
+    import copy
+    import pickle
+    what = ('deepcopy', 'copy', 'pickle', 'model', 'Cij-of')[k % 5]
+    out = None
+    with ctx.guard(f'{what} of an ElasticConstants object', f'{tag}:{what}'):
+        if what == 'deepcopy':
+            out = copy.deepcopy(obj)
+        elif what == 'copy':
+            out = copy.copy(obj)
+        elif what == 'pickle':
+            out = pickle.loads(pickle.dumps(obj))
+        elif what == 'model':
+            out = EC(model=obj.model())
+        else:
+            out = EC(Cij=obj.Cij)
+    ctx.rec.count('path:' + what)
+    return out, what
+
+
+def run_workbuffer_case(ctx, EC, i):
+    """One caller-owned axes object, overwritten in place between successive transform() calls."""
+    rec, rng = ctx.rec, ctx.rng
+    form = BUF.FORMS[i % 9]
+    pattern = WB_PATTERNS[(i // 9) % 6]
+    gap = WB_GAPS[(i + i // 54) % 4]
+    style0 = (i // 2) % 5
+    exact = form in BUF.EXACT_ONLY
+    scale = GEN.SCALES[(i // 3) % 3] * float(rng.uniform(0.5, 2.0))
+    kindA = WB_KINDS[i % 7]
+    kindB = WB_KINDS[(i + 1 + (i // 7) % 5) % 7]
+    caseA, kwA = make_truth(rng, kindA, scale)
+    caseB, kwB = make_truth(rng, kindB, scale)
+    eps = GEN.strain(rng, GEN.STRAINS[i % 5])
+    en2 = float((eps * eps).sum())
+    tag = 'workbuffer'
+    rec.case((tag, form, pattern, gap), nontrivial=True, fp=fingerprint(caseA.c6, caseB.c6, form, pattern, gap))
+    rec.count('workbuffer:form:' + form)
+    rec.count('workbuffer:pattern:' + pattern)
+    rec.count('workbuffer:gap:' + gap)
+    rec.count(f'workbuffer:form-x-pattern:{form}:{pattern}')
+    if i < 18:
+        rec.sample(dict(buffer=form, pattern=pattern, between_calls=gap, Cij_A=caseA.c6, kind_A=kindA, kind_B=kindB))
+
+    def next_rotation(k):
+        if exact:
+            return GEN.exact_rotation(rng, GEN.EXACT_ROTATIONS[(i + k) % 3])
+        return GEN.rotation(rng, GEN.ROTATIONS[(i + 3 * k) % len(GEN.ROTATIONS)])
+
+    A, xA = build_object(ctx, EC, caseA, kwA, kindA, 'constructor', i, tag)
+    B, xB = build_object(ctx, EC, caseB, kwB, kindB, 'constructor', i + 1, tag)
+    if A is None or B is None:
+        return
+    buf = BUF.Buffer(form, (3, 3), rng)
+    kept = []                      # (object returned, array read from it, copy of that array)
+    first = None
+
+    def judge(obj, case, extra_rel, rot_before, step, zin):
+        """transform(buf.obj) on obj, which holds case.c6 rotated by rot_before (after ``step`` earlier transforms that
+        may have zeroed components of total magnitude zin); returns (result, total rotation, zin + what this call may zero)."""
+        snap = buf.values()
+        Ru = O.unit_rows(snap)
+        T = None
+        with ctx.guard('transform(axes held in a re-used object)', f'{tag}:{pattern}:call'):
+            T = obj.transform(buf.obj)
+        now = buf.values()
+        rec.check(np.array_equal(now, snap) and (not buf.is_nd or buf.obj.dtype == np.dtype(BUF_DTYPE[form])),
+                  'transform leaves the axes object it was handed unchanged', f'{tag}:args-untouched', form=form, before=snap, after=now)
+        if T is None:
+            return None, rot_before, zin
+        total = Ru @ rot_before
+        E = O.rotate_voigt(case.c6, total)
+        extra = (extra_rel + 9 * case.dz + step * BASE) * case.cmax + 9 * zin
+        t = T.Cij
+        rec.close(ztol(E, THR_TRF, extra=extra), t, E,
+                  'transform(axes) is the tensor rotation for the axes the object holds at the time of the call, whatever it held during earlier calls',
+                  f'{tag}:{pattern}:value', form=form, step=step, between_calls=gap, axes=snap)
+        with ctx.guard('energy of the co-rotated strain', f'{tag}:{pattern}:energy'):
+            w0 = O.energy(O.c4_from_voigt(case.c6), eps)
+            w1 = O.energy(T.Cijkl, O.rotate_strain(eps, total))
+            rec.close(0.5 * en2 * 9 * (extra + zslack(E, THR_TRF) + BASE * case.cmax) + 1e-13 * abs(w0), w1, w0,
+                      'eps:C:eps/2 is unchanged when tensor and strain are rotated together (axes handed over in a re-used object)',
+                      f'{tag}:{pattern}:energy', form=form, step=step)
+        kept.append((T, t, t.copy()))
+        rec.count('workbuffer:transforms')
+        rec.count('workbuffer:transforms:' + form)
+        return T, total, zin + zslack(E, THR_TRF)
+
+    X, xX, rotX, zX = A, xA, np.eye(3), 0.0    # running object of the 'chain' pattern
+    last = None
+    for k in range(WB_STEPS):
+        style = BUF.WRITE_STYLES[(style0 + k) % 5]
+        if style == 'inplace-op' and k > 0:
+            op = BUF.INPLACE_OPS[(i + k) % 4]
+            cur = buf.values()
+            if op == 'transpose' and np.abs(cur @ cur.T - np.eye(3)).max() > 1e-15:
+                op = 'cycle-rows'                  # the transpose of axes with rows of unequal length is not a set of orthogonal axes
+            buf.inplace(op)
+            rec.count('workbuffer:inplace:' + op)
+        else:
+            buf.write(next_rotation(k), style)
+        rec.count('workbuffer:write:' + style)
+        R = buf.values()
+        if pattern == 'same-object':
+            targets = [(A, caseA, xA, np.eye(3))]
+        elif pattern == 'two-objects':
+            targets = [(A, caseA, xA, np.eye(3)), (B, caseB, xB, np.eye(3))]
+            if k % 2:
+                targets.reverse()
+        elif pattern == 'chain':
+            targets = [(X, caseA, xX, rotX)]
+        elif pattern in ('fresh-objects', 'default-then-set'):
+            kind = WB_KINDS[(i + k) % 7]
+            cs, kw = make_truth(rng, kind, scale)
+            obj, x = build_object(ctx, EC, cs, kw, kind, 'constructor' if pattern == 'fresh-objects' else 'default-then-set', i + k, tag)
+            if obj is None:
+                continue
+            targets = [(obj, cs, x, np.eye(3))]
+        else:
+            obj, what = copies_of(ctx, EC, A, i + k, tag)
+            if obj is None:
+                continue
+            rec.check(obj is not A, f'{what} gives another object', f'{tag}:copies:distinct', what=what)
+            targets = [(obj, caseA, xA + (4e-16 if what == 'model' else 0.0), np.eye(3))]
+        for (obj, cs, x, rot0) in targets:
+            chain = pattern == 'chain'
+            T, total, z = judge(obj, cs, x, rot0, k if chain else 0, zX if chain else 0.0)
+            if T is None:
+                continue
+            last = (T, cs, x, total, z)
+            if first is None:
+                first = (obj, cs, R.copy(), T.Cij)
+            zobj = zX if chain else 0.0         # what obj itself may have lost to zeroing before this step
+            if chain:
+                X, rotX, zX = T, total, z
+            if gap == 'equal-values-other-array':
+                with ctx.guard('transform(equal axes in another array)', f'{tag}:{pattern}:equal-values'):
+                    T2 = obj.transform(R.copy())
+                    # another memory layout may round the unit vectors differently: a few ulp, not bitwise
+                    rec.close(2 * ztol(T.Cij, THR_TRF, base=1e-13), T2.Cij, T.Cij, 'equal axes in another array give the same result', f'{tag}:{pattern}:equal-values', form=form)
+            elif gap == 'other-values-other-array':
+                with ctx.guard('transform(other axes in another array)', f'{tag}:{pattern}:other-values'):
+                    R2 = next_rotation(k + 1)
+                    T2 = obj.transform(container(R2, bool(k % 2)))
+                    E2 = O.rotate_voigt(cs.c6, O.unit_rows(R2) @ rot0)
+                    st = k if chain else 0
+                    rec.close(ztol(E2, THR_TRF, extra=(x + 9 * cs.dz + st * BASE) * cs.cmax + 9 * zobj), T2.Cij, E2,
+                              'transform with other axes in between is the rotation for those axes', f'{tag}:{pattern}:other-values', form=form)
+            elif gap == 'repeat-unchanged':
+                with ctx.guard('transform(the same unchanged object again)', f'{tag}:{pattern}:repeat'):
+                    T2 = obj.transform(buf.obj)
+                    rec.check(np.array_equal(T2.Cij, T.Cij), 'the same call repeated with the unchanged object gives the same result', f'{tag}:{pattern}:repeat', form=form)
+                    rec.count('workbuffer:repeats')
+
+        # a call that is refused (left-handed axes: outside the quantifier, documented ValueError) must not leave anything behind
+        if k == 2 and (i // 4) % 3 == 0 and last is not None:
+            cur = buf.values()
+            flipped = cur.copy()
+            flipped[2] = -flipped[2]
+            buf.write(flipped, 'row-by-row')
+            with ctx.guard('transform(left-handed axes)', f'{tag}:{pattern}:improper', accept=(ValueError,)):
+                last[0].transform(buf.obj)
+                rec.count('workbuffer:improper-axes-accepted')       # no verdict: the statement speaks of proper rotations only
+            rec.count('workbuffer:improper-axes-in-between')
+            buf.write(cur, 'copyto')
+            with ctx.guard('transform after a refused call', f'{tag}:{pattern}:after-refusal'):
+                T, cs, x, total, z = last
+                again = A.transform(buf.obj)
+                E = O.rotate_voigt(caseA.c6, O.unit_rows(cur))
+                rec.close(ztol(E, THR_TRF, extra=(xA + 9 * caseA.dz) * caseA.cmax), again.Cij, E,
+                          'transform after a refused call is the rotation for the axes given', f'{tag}:{pattern}:after-refusal', form=form)
+
+    # inverse rotation written into the same object
+    if last is not None:
+        T, cs, x, total, z = last
+        Rinv = O.unit_rows(buf.values()).T.copy()
+        if buf.representable(Rinv):
+            buf.write(Rinv, 'slice-assign')
+            st = WB_STEPS if pattern == 'chain' else 1
+            back = None
+            with ctx.guard('inverse transform through the re-used object', f'{tag}:{pattern}:inverse'):
+                back = T.transform(buf.obj)
+            if back is not None:
+                E = O.rotate_voigt(cs.c6, Rinv @ total)
+                rec.close(ztol(E, THR_TRF, extra=(x + 9 * cs.dz + st * BASE) * cs.cmax + 9 * z), back.Cij, E,
+                          'transform(A) followed by transform(A^T), A^T written into the object that held A, undoes the rotation', f'{tag}:{pattern}:inverse', form=form)
+                rec.count('workbuffer:inverses')
+        else:
+            rec.count('workbuffer:inverse-skipped-not-representable')
+    # the same call with an equal argument gives the same value whatever happened in between
+    if first is not None:
+        obj, cs, R0, t0 = first
+        buf.write(R0, 'elementwise')
+        with ctx.guard('first call repeated at the end', f'{tag}:{pattern}:repeat-equal-argument'):
+            again = obj.transform(buf.obj).Cij
+            rec.check(np.array_equal(again, t0), 'the first call repeated with equal axes gives the first result again, whatever was computed in between',
+                      f'{tag}:{pattern}:repeat-equal-argument', form=form, max_dev=float(np.abs(again - t0).max()))
+            rec.count('workbuffer:repeat-equal-argument')
+    # results handed out earlier are not touched by later calls
+    for (T, t, tc) in kept:
+        rec.check(np.array_equal(t, tc), 'an array read from an earlier result is not changed by later calls', f'{tag}:kept-array-stable', form=form)
+        with ctx.guard('re-reading an earlier result', f'{tag}:kept-object-stable'):
+            rec.check(np.array_equal(T.Cij, tc), 'an earlier result still holds the tensor it was returned with', f'{tag}:kept-object-stable', form=form)
+        rec.count('workbuffer:kept-results-rejudged')
+
+
+BUF_DTYPE = {'f64-c': 'float64', 'f64-fortran': 'float64', 'f64-view': 'float64', 'f64-strided': 'float64', 'f32': 'float32', 'i64': 'int64'}
+
+
+# ==========================================================================
+ARG_ROUTES = ('constructor', 'setter-on-default', 'setter-on-used', 'setter-on-copy')
+ARG_SHAPE = {'Cij': (6, 6), 'Sij': (6, 6), 'Cij9': (9, 9), 'Cijkl': (3, 3, 3, 3), 'Sijkl': (3, 3, 3, 3)}
+ARG_RESULTS = ('transform-identity', 'transform', 'normalized-triclinic', 'normalized-other', 'deepcopy', 'copy', 'pickle', 'model')
+
+
+def voigt_of(vals, r):
+    """Stiffness 6x6 that the values of representation r stand for (oracle maps only)."""
+    if r == 'Cij':
+        return np.array(vals, float)
+    if r == 'Sij':
+        return np.linalg.inv(vals)
+    if r == 'Cij9':
+        return O.voigt_from_c9(vals)
+    if r == 'Cijkl':
+        return O.voigt_from_c4(vals)
+    return np.linalg.inv(O.voigt_from_s4(vals))
+
+
+def argument_values(rng, r, form, scale, tiny):
+    """(values to put into the caller's object, Case of the stiffness they stand for)."""
+    for _ in range(50):
+        zs = None
+        if form == 'i64' or (form == 'f32' and r.startswith('C')):
+            c0 = BUF.exact_spd6(rng, GEN.CONDS[int(rng.integers(0, 2))])
+        elif tiny:
+            c0, t = GEN.tiny_entry(rng, 0)
+            c0, zs = c0 * scale, t
+        else:
+            c0 = GEN.spd_generic(rng, GEN.CONDS[int(rng.integers(0, 3))]) * scale
+        vals = oracle_repr(c0, r)
+        if form == 'f32':
+            vals = vals.astype(np.float32).astype(float)
+        c6 = voigt_of(vals, r)
+        c6 = (c6 + c6.T) / 2
+        if O.is_spd(c6) and O.cond6(c6) <= 2e4:
+            return vals, Case(c6, zs)
+    raise RuntimeError('argument_values: no draw accepted')
+
+
+def run_argument_case(ctx, EC, i):
+    """Constructors and setters fed from one caller-owned object that is overwritten in place afterwards; two
+    instances alive at the same time; results handed out must stay what they were."""
+    import copy
+    import pickle
+    rec, rng = ctx.rec, ctx.rng
+    r = GEN.REPRS[i % 5]
+    form = BUF.FORMS[(i // 5) % 9]
+    if form == 'i64' and r.startswith('S'):
+        form = 'f32'                        # a compliance is never integer valued
+    routeA = ARG_ROUTES[(i // 45) % 4]
+    routeB = ARG_ROUTES[(i // 45 + 1 + i % 3) % 4]
+    tiny = r.startswith('C') and form not in BUF.EXACT_ONLY and (i // 5) % 2 == 0 and (i // 90) % 2 == 0
+    scale = GEN.SCALES[(i // 2) % 3] * float(rng.uniform(0.5, 2.0))
+    valsA, caseA = argument_values(rng, r, form, scale, tiny)
+    valsB, caseB = argument_values(rng, r, form, scale, False)
+    tag = 'arguments'
+    rec.case((tag, r, form, routeA, routeB, 'tiny' if tiny else '-'), nontrivial=True, fp=fingerprint(valsA, valsB, r, form))
+    rec.count('arguments:entry:' + r)
+    rec.count('arguments:form:' + form)
+    rec.count('arguments:route:' + routeA)
+    rec.count(f'arguments:entry-x-form:{r}:{form}')
+    if tiny:
+        rec.count('arguments:tiny-entry')
+    if i < 16:
+        rec.sample(dict(entry=r, container=form, first_route=routeA, second_route=routeB, values_A=valsA))
+    xtra = 0.0 if r.startswith('C') else 1e-13
+
+    def build(route, arg, case_unused):
+        obj = None
+        with ctx.guard(f'{route} with {r} from a re-used object', f'{tag}:build:{route}:{r}'):
+            if route == 'constructor':
+                obj = EC(**{r: arg})
+            elif route == 'setter-on-default':
+                obj = EC()
+                setattr(obj, r, arg)
+            elif route == 'setter-on-used':
+                obj = EC(Cij=GEN.spd_generic(rng, 10.0))
+                obj.Sijkl, obj.bulk(), obj.shear()          # an object that has been read before it is given new values
+                setattr(obj, r, arg)
+            else:
+                obj = copy.deepcopy(EC(Cijkl=O.c4_from_voigt(GEN.spd_generic(rng, 10.0))))
+                setattr(obj, r, arg)
+        return obj
+
+    def holds(obj, case, key, clause, full=True):
+        """obj still is the tensor case.c6: Cij first (one clause, one key), then the other representations."""
+        got = None
+        with ctx.guard('reading Cij', key):
+            got = obj.Cij
+        if got is None:
+            return False
+        ok = rec.close(case.tol('Cij', xtra * case.cond), got, case.exp['Cij'], clause, key, entry=r, form=form)
+        if ok and full:
+            for rr in GEN.REPRS[1:]:
+                with ctx.guard(f'reading {rr}', f'{key}:{rr}'):
+                    rec.close(case.tol(rr, xtra * case.cond), getattr(obj, rr), case.exp[rr], clause + f' ({rr})', f'{key}:{rr}', entry=r, form=form)
+        return ok
+
+    buf = BUF.Buffer(form, ARG_SHAPE[r], rng)
+    buf.write(valsA, BUF.WRITE_STYLES[i % 4])
+    A = build(routeA, buf.obj, caseA)
+    if A is None:
+        return
+    rec.check(np.array_equal(buf.values(), valsA), f'the object handed over as {r} still holds the caller\'s values after the call',
+              f'{tag}:arg-edited:{r}', form=form, tiny=tiny, changed=int((buf.values() != valsA).sum()))
+    rec.count('arguments:arg-untouched-evaluations')
+    if not holds(A, caseA, f'{tag}:first:{r}', f'an object given {r} in a caller-owned {form} holds that tensor'):
+        return
+    keptA = [(rr, arr, arr.copy()) for rr, arr in ((rr, getattr(A, rr)) for rr in GEN.REPRS)]
+
+    # the caller re-uses its object for the next tensor; a second instance is built from it
+    buf.write(valsB, BUF.WRITE_STYLES[(i + 1) % 4])
+    aliveA = holds(A, caseA, f'{tag}:arg-alias:{r}', 'an object keeps its tensor when the caller overwrites the array it was built from', full=False)
+    B = build(routeB, buf.obj, caseB)
+    if B is None:
+        return
+    aliveB = holds(B, caseB, f'{tag}:second-instance:{r}', 'a second object built from the re-used array holds the second tensor')
+    if aliveA:
+        aliveA = holds(A, caseA, f'{tag}:first-after-second:{r}', 'the first object is unchanged by building a second one')
+    for rr, arr, cp in keptA:
+        rec.check(np.array_equal(arr, cp), 'arrays read from the first object are unchanged by building the second', f'{tag}:kept-arrays:{rr}', entry=r, form=form)
+    rec.count('arguments:second-instances')
+    buf.scribble(rng, ('zeros', 'asymmetric', 'random')[i % 3])
+    if aliveA:
+        aliveA = holds(A, caseA, f'{tag}:arg-alias:{r}', 'an object keeps its tensor when the caller overwrites the array it was built from', full=False)
+    if aliveB:
+        aliveB = holds(B, caseB, f'{tag}:arg-alias:{r}', 'an object keeps its tensor when the caller overwrites the array it was built from', full=False)
+    rec.count('arguments:alias-evaluations')
+    if not (aliveA and aliveB):
+        rec.count('arguments:stopped-after-alias')
+        return
+
+    # two live instances used in turn
+    R = GEN.rotation(rng, GEN.ROTATIONS[i % len(GEN.ROTATIONS)])
+    Ru = O.unit_rows(R)
+    with ctx.guard('two instances used in turn', f'{tag}:interleaved'):
+        TA = A.transform(R)
+        kB = B.bulk('Reuss')
+        TB = B.transform(R)
+        gA = A.shear('Hill')
+        NB = B.normalized_as(NORMAL_SYSTEMS[i % 6])
+        for obj, T, case in ((A, TA, caseA), (B, TB, caseB)):
+            E = O.rotate_voigt(case.c6, Ru)
+            rec.close(ztol(E, THR_TRF, extra=(xtra * case.cond + 9 * case.dz) * case.cmax), T.Cij, E,
+                      'transform of one instance is unaffected by the other instance', f'{tag}:interleaved:transform', entry=r)
+        refA, refB = O.vrh(caseA.c6), O.vrh(caseB.c6)
+        rec.close(modulus_tol('Reuss', refB['bulk', 'Reuss'], caseB.cond, caseB.smax, caseB.cmax, caseB.dz + xtra * caseB.cond), kB, refB['bulk', 'Reuss'],
+                  'bulk(Reuss) of one instance is unaffected by the other instance', f'{tag}:interleaved:bulk')
+        rec.close(modulus_tol('Hill', refA['shear', 'Hill'], caseA.cond, caseA.smax, caseA.cmax, caseA.dz + xtra * caseA.cond), gA, refA['shear', 'Hill'],
+                  'shear(Hill) of one instance is unaffected by the other instance', f'{tag}:interleaved:shear')
+        rec.check(NB is not B and NB is not A, 'normalized_as returns a new object', f'{tag}:interleaved:normalized-new-object')
+    holds(A, caseA, f'{tag}:after-interleaving:{r}', 'the first of two instances still holds its tensor after both were used in turn')
+    holds(B, caseB, f'{tag}:after-interleaving:{r}', 'the second of two instances still holds its tensor after both were used in turn')
+    rec.count('arguments:interleavings')
+
+    # what a method returns is an object of its own: giving it new values does not reach the object it came from
+    for k in range(3):
+        what = ARG_RESULTS[(i + 3 * k) % 8]
+        X, E, same = None, None, True
+        with ctx.guard(f'result of {what}', f'{tag}:result:{what}'):
+            if what == 'transform-identity':
+                X = A.transform(container(np.eye(3), bool(i % 2)))
+            elif what == 'transform':
+                X, same = A.transform(R), False
+            elif what == 'normalized-triclinic':
+                X = A.normalized_as('triclinic')
+            elif what == 'normalized-other':
+                X, same = A.normalized_as(NORMAL_SYSTEMS[(i + k) % 6]), False
+            elif what == 'deepcopy':
+                X = copy.deepcopy(A)
+            elif what == 'copy':
+                X = copy.copy(A)
+            elif what == 'pickle':
+                X = pickle.loads(pickle.dumps(A))
+            else:
+                X = EC(model=A.model())
+        if X is None:
+            continue
+        rec.check(X is not A, f'{what} returns an object of its own', f'{tag}:result-distinct:{what}')
+        if same:
+            with ctx.guard(f'reading the result of {what}', f'{tag}:result-value:{what}'):
+                rec.close(ztol(caseA.c6, THR_TRF, extra=(xtra * caseA.cond + 9 * caseA.dz + 4e-16) * caseA.cmax), X.Cij, caseA.c6,
+                          f'{what} returns the same tensor', f'{tag}:result-value:{what}', entry=r)
+        with ctx.guard(f'giving the result of {what} new values', f'{tag}:result-independent:{what}'):
+            rr = GEN.REPRS[(i + k) % 5]
+            setattr(X, rr, container(caseB.exp[rr], bool(k % 2)))
+            rec.close(caseB.tol('Cij', 1e-13 * caseB.cond), X.Cij, caseB.c6, f'the result of {what} takes new values', f'{tag}:result-reassigned:{what}')
+        holds(A, caseA, f'{tag}:result-independent:{what}', f'giving the result of {what} new values leaves the object it came from unchanged', full=False)
+        rec.count('arguments:result:' + what)
+    for rr, arr, cp in keptA:
+        rec.check(np.array_equal(arr, cp), 'arrays read from an object are unchanged by everything done afterwards', f'{tag}:kept-arrays:{rr}', entry=r, form=form)
+
+
+# ==========================================================================
+PATHS = ('model-DM', 'model-json', 'model-xml', 'model-bytes-file', 'model-old-format', 'model-normalised',
+         'named-int', 'named-float64-scalar', 'named-0d-array', 'named-float32-exact')
+PATH_UNITS = (None, 'GPa', 'Pa', 'eV/angstrom^3', 'mJ/mm^3')
+PATH_KINDS = ('spd', 'cubic', 'hexagonal', 'tetragonal', 'rhombohedral', 'orthorhombic', 'monoclinic', 'triclinic')
+NO_ARITHMETIC = ('cubic', 'orthorhombic', 'monoclinic', 'triclinic')       # constructors that only place the constants given
+
+
+def run_path_case(ctx, EC, i):
+    """Alternative construction paths: data model written and read back in every accepted form (new and old layout,
+    with and without units, constructor and method on a used object), named constants given as other scalar types."""
+    import io
+    import atomman.unitconvert as uc
+    from DataModelDict import DataModelDict as DM
+    rec, rng = ctx.rec, ctx.rng
+    path = PATHS[i % 10]
+    unit = PATH_UNITS[(i // 10) % 5]
+    kind = PATH_KINDS[(i // 10 + i // 50) % 8]
+    on_used = bool((i // 10) % 2)
+    scale = GEN.SCALES[(i // 20) % 3] * float(rng.uniform(0.5, 2.0))
+    tag = 'paths'
+    named = path.startswith('named')
+    if named and kind == 'spd':
+        kind = 'triclinic'
+    if path == 'named-float32-exact' and kind not in NO_ARITHMETIC:
+        kind = NO_ARITHMETIC[(i // 10) % 4]
+    if path == 'model-old-format' and kind == 'spd':
+        kind = 'triclinic'
+    if path == 'model-normalised' and kind in ('spd', 'monoclinic', 'triclinic'):
+        kind = ('cubic', 'hexagonal', 'tetragonal', 'rhombohedral', 'orthorhombic')[(i // 10) % 5]
+
+    # ---- truth ------------------------------------------------------------------
+    if kind == 'spd':
+        case, kw, group = Case(GEN.spd_generic(rng, GEN.CONDS[i % 3]) * scale), None, None
+    else:
+        group, variants = GEN.SYSTEMS[kind]
+        names = variants[(i // 80) % len(variants)]
+        if path in ('named-int', 'named-float32-exact') and len({'C11', 'C12', 'C66'} & set(names)) == 3 and kind in ('hexagonal', 'rhombohedral'):
+            names = variants[0]            # rounded constants: a redundant C66 would no longer equal (C11-C12)/2
+        raw, _ = GEN.system_tensor(rng, kind, cond=1e3)
+        raw = raw * scale
+        if path == 'named-int':
+            raw = np.round(raw / np.abs(raw).max() * 20000)            # constants in units of their last digit
+        elif path == 'named-float32-exact':
+            raw = raw.astype(np.float32).astype(float)
+        kw, c6 = GEN.named_constants(raw, names, group)
+        if not (O.is_spd(c6) and O.cond6(c6) <= 1e4):
+            rec.count('paths:skipped-rounded-constants-not-spd')
+            return
+        case = Case(c6)
+    rec.case((tag, path, kind, str(unit), 'used' if on_used else 'new'), nontrivial=True, fp=fingerprint(case.c6, path, str(unit)))
+    rec.count('paths:path:' + path)
+    rec.count('paths:kind:' + kind)
+    if i < 20:
+        rec.sample(dict(path=path, kind=kind, unit=unit, keywords=kw, Cij=case.c6))
+
+    def target():
+        if not on_used:
+            return None
+        X = EC(Cij=GEN.spd_generic(rng, 10.0))
+        X.Sij, X.bulk()
+        return X
+
+    def judge(obj, rel, key, clause):
+        got = read_all(ctx, obj, key)
+        for rr, val in got.items():
+            rec.close(case.tol(rr, rel * (1 if rr.startswith('C') else 40 * case.cond)), val, case.exp[rr], clause + f' ({rr})', f'{key}:{rr}', path=path, unit=unit)
+        R = GEN.rotation(rng, GEN.ROTATIONS[i % len(GEN.ROTATIONS)])
+        with ctx.guard('transform of an object built on an alternative path', key + ':transform'):
+            E = O.rotate_voigt(case.c6, O.unit_rows(R))
+            rec.close(ztol(E, THR_TRF, extra=(9 * rel + 9 * case.dz) * case.cmax), obj.transform(R).Cij, E, clause + ' (transform)', key + ':transform', path=path)
+
+    # ---- named constants as other scalar types -------------------------------------
+    if named:
+        conv = {'named-int': int, 'named-float64-scalar': np.float64, 'named-0d-array': lambda v: np.array(v, float),
+                'named-float32-exact': np.float32}[path]
+        kw2 = {n: conv(v) for n, v in kw.items()}
+        assert all(float(kw2[n]) == kw[n] for n in kw)
+        obj = None
+        with ctx.guard(f'constants of a crystal system given as {path[6:]}', f'{tag}:{path}:build'):
+            if on_used:
+                obj = target()
+                getattr(obj, GEN.SYSTEM_METHOD[kind])(**kw2)
+            else:
+                obj = EC(**kw2)
+        if obj is None:
+            return
+        judge(obj, 0.0, f'{tag}:{path}', f'named constants given as {path[6:]} build the invariant tensor carrying them')
+        with ctx.guard('dtype of the stored matrix', f'{tag}:{path}:dtype'):
+            rec.check(obj.Cij.dtype == np.float64, 'Cij is a float64 array whatever scalar type the constants had', f'{tag}:{path}:dtype')
+        for n in kw2:                     # what the caller does with its own numbers afterwards
+            if isinstance(kw2[n], np.ndarray):
+                kw2[n][...] = -1.0
+        with ctx.guard('re-reading', f'{tag}:{path}:after'):
+            rec.close(case.tol('Cij'), obj.Cij, case.c6, 'the object keeps its tensor when the caller overwrites the 0-d arrays it passed', f'{tag}:{path}:after')
+        rec.count('paths:named-evaluations')
+        return
+
+    # ---- data model -----------------------------------------------------------------
+    src = None
+    with ctx.guard('building the source object', f'{tag}:source'):
+        src = EC(**kw) if kw is not None else EC(Cijkl=case.exp['Cijkl'])
+    if src is None:
+        return
+    factor = 1.0 if unit is None else float(uc.set_in_units(1.0, unit))
+    rel = 0.0 if unit is None else 8e-16          # one division and one multiplication by the unit's value
+    if path == 'model-old-format':
+        # layout of older records: one entry per named constant, 'ij' = "i j", value with unit
+        u = unit or 'GPa'
+        f = float(uc.set_in_units(1.0, u))
+        model = DM()
+        model['elastic-constants'] = DM()
+        for n, v in kw.items():
+            c = DM()
+            c['stiffness'] = DM([('value', v / f), ('unit', u)])
+            c['ij'] = f'{n[1]} {n[2]}'
+            model['elastic-constants'].append('C', c)
+        rel = 8e-16
+        arg = (model, model.json(), model.xml(), io.BytesIO(model.json().encode()))[(i // 10) % 4]
+    else:
+        model = None
+        with ctx.guard('model()', f'{tag}:{path}:dump'):
+            if path == 'model-normalised':
+                model = src.model(unit=unit, crystal_system=OWN_SYSTEM[group])
+            else:
+                model = src.model(unit=unit)
+        if model is None:
+            return
+        with ctx.guard('content of the data model', f'{tag}:{path}:content'):
+            el = model['elastic-constants']['Cij']
+            val = np.array(el['value'], float).reshape(tuple(el['shape'])) * factor
+            rec.close(ztol(case.c6, THR_SET, extra=(rel + 20 * case.dz) * case.cmax), val, case.c6,
+                      'the data model holds Cij in the unit it names', f'{tag}:{path}:content', unit=unit)
+            rec.check(el.get('unit', None) == unit, 'the data model names the unit asked for', f'{tag}:{path}:unit', unit=unit, got=el.get('unit', None))
+        arg = {'model-DM': model, 'model-json': model.json(), 'model-xml': model.xml(), 'model-normalised': model.json(),
+               'model-bytes-file': io.BytesIO(model.json().encode())}[path]
+        with ctx.guard('source after model()', f'{tag}:{path}:source-after'):
+            rec.close(case.tol('Cij'), src.Cij, case.c6, 'model() leaves the object unchanged', f'{tag}:{path}:source-after')
+    obj = None
+    with ctx.guard(f'reading the data model ({path})', f'{tag}:{path}:load'):
+        if on_used:
+            obj = target()
+            obj.model(model=arg)
+        else:
+            obj = EC(model=arg)
+    if obj is None:
+        return
+    judge(obj, rel + (20 * case.dz if path == 'model-normalised' else 0.0), f'{tag}:{path}', 'a tensor written to a data model and read back is the same tensor')
+    # the model the caller holds and the object read from it are independent
+    if isinstance(arg, DM):
+        with ctx.guard('overwriting the model after it was read', f'{tag}:{path}:model-independent'):
+            el = arg['elastic-constants']
+            if 'Cij' in el:
+                el['Cij']['value'] = [0.0] * 36
+            else:
+                for c in el.aslist('C'):
+                    c['stiffness']['value'] = 0.0
+            rec.close(case.tol('Cij', rel + (20 * case.dz if path == 'model-normalised' else 0.0)), obj.Cij, case.c6, 'the object keeps its tensor when the caller edits the data model it was read from', f'{tag}:{path}:model-independent')
+    rec.count('paths:model-evaluations')
+
+
+# ==========================================================================
 def run(ctx):
     import atomman as am
     EC = am.ElasticConstants
@@ -716,6 +1338,12 @@ def run(ctx):
         run_iso_case(ctx, EC, i)
     for i in ctx.cases('histories', ctx.pick(216, 2160)):
         run_history_case(ctx, EC, i)
+    for i in ctx.cases('workbuffers', ctx.pick(216, 1296)):
+        run_workbuffer_case(ctx, EC, i)
+    for i in ctx.cases('arguments', ctx.pick(180, 1080)):
+        run_argument_case(ctx, EC, i)
+    for i in ctx.cases('paths', ctx.pick(200, 1200)):
+        run_path_case(ctx, EC, i)
 
     for k, v in monitor.calls.items():
         if isinstance(v, int):
@@ -760,3 +1388,48 @@ def run(ctx):
     rec.floor('reach:lines:isotropic-pairs', 60)
     rec.floor('reach:lines:transform', 5)
     rec.floor('reach:lines:index-tables', 20)
+    # round 4: caller-owned argument objects re-used between calls
+    for f in BUF.FORMS:
+        rec.floor('workbuffer:form:' + f, 20)
+        rec.floor('workbuffer:transforms:' + f, 100)
+        for pt in WB_PATTERNS:
+            rec.floor(f'workbuffer:form-x-pattern:{f}:{pt}', 3)
+    for pt in WB_PATTERNS:
+        rec.floor('workbuffer:pattern:' + pt, 30)
+    for g in WB_GAPS:
+        rec.floor('workbuffer:gap:' + g, 40)
+    for w in BUF.WRITE_STYLES:
+        rec.floor('workbuffer:write:' + w, 100)
+    rec.floor('workbuffer:transforms', 1000)
+    rec.floor('workbuffer:repeats', 200)
+    rec.floor('workbuffer:inverses', 120)
+    rec.floor('workbuffer:improper-axes-in-between', 40)
+    rec.floor('workbuffer:repeat-equal-argument', 200)
+    rec.floor('workbuffer:kept-results-rejudged', 1000)
+    rec.floor('default-instances', 150)
+    for w in ('deepcopy', 'copy', 'pickle', 'model', 'Cij-of'):
+        rec.floor('path:' + w, 30)
+    for op in BUF.INPLACE_OPS:
+        rec.floor('workbuffer:inplace:' + op, 8)           # 'transpose' needs rows of unit length: 19..27 observed
+    for r in GEN.REPRS:
+        rec.floor('arguments:entry:' + r, 30)
+        for f in BUF.FORMS:
+            if not (f == 'i64' and r.startswith('S')):
+                rec.floor(f'arguments:entry-x-form:{r}:{f}', 3)
+    for f in BUF.FORMS:
+        rec.floor('arguments:form:' + f, 10)
+    for rt in ARG_ROUTES:
+        rec.floor('arguments:route:' + rt, 40)
+    rec.floor('arguments:tiny-entry', 15)
+    rec.floor('arguments:arg-untouched-evaluations', 170)
+    rec.floor('arguments:alias-evaluations', 170)
+    rec.floor('arguments:second-instances', 170)
+    rec.floor('arguments:interleavings', 120)          # reachable with and without the staged finding (which stops 32 cases early)
+    for w in ARG_RESULTS:
+        rec.floor('arguments:result:' + w, 35)
+    for pth in PATHS:
+        rec.floor('paths:path:' + pth, 18)
+    for kd in PATH_KINDS:
+        rec.floor('paths:kind:' + kd, 10)
+    rec.floor('paths:model-evaluations', 100)
+    rec.floor('paths:named-evaluations', 60)
